@@ -212,3 +212,15 @@ FN += [
     (lints.unbalanced_peer_args, "class C:\n    def __ge__(self, other):\n        return ver_cmp(self.version, self.revision, other.version, self.revision) >= 0\n",
      "class C:\n    def __ge__(self, other):\n        return ver_cmp(self.version, self.revision, other.version, other.revision) >= 0\n"),
 ]
+
+FN += [
+    (lints.id_in_hash, "class B:\n    def __hash__(self):\n        return hash((self.negate, tuple(map(id, self.restrictions))))\n", "class B:\n    def __hash__(self):\n        return hash((self.negate, tuple(self.restrictions)))\n"),
+    (lints.set_op_with_sequence_default, "def f(seen, groups, i):\n    seen |= groups.get(i, ())\n", "def f(seen, groups, i):\n    seen.update(groups.get(i, ()))\n"),
+    (lints.loop_flag_overwritten, "def f(entries):\n    changed = False\n    for e in entries:\n        if changed := e.old != e.new:\n            e.rewrite()\n    if not changed:\n        return None\n    return entries\n",
+     "def f(entries):\n    changed = False\n    for e in entries:\n        if e.old != e.new:\n            changed = True\n            e.rewrite()\n    if not changed:\n        return None\n    return entries\n"),
+    (lints.loop_flag_overwritten, "def f(groups):\n    keep_going = True\n    while keep_going:\n        keep_going = False\n        for k, v in groups.items():\n            l = expand(v)\n            keep_going = any(x[0] == '@' for x in l)\n            groups[k] = l\n",
+     "def f(groups):\n    keep_going = True\n    while keep_going:\n        keep_going = False\n        for k, v in groups.items():\n            l = expand(v)\n            if any(x[0] == '@' for x in l):\n                keep_going = True\n            groups[k] = l\n"),
+    (lints.identity_on_quantity, "def f(cset, bad):\n    return [x for x in cset if x.uid is bad]\n", "def f(cset, bad):\n    return [x for x in cset if x.uid == bad]\n"),
+    (lints.conditional_reraise, "def flush(self):\n    f = None\n    try:\n        f = Atomic(self.path)\n        f.write(self.data)\n        f.close()\n    except Exception:\n        if f is not None:\n            f.discard()\n            raise\n",
+     "def flush(self):\n    f = None\n    try:\n        f = Atomic(self.path)\n        f.write(self.data)\n        f.close()\n    except Exception:\n        if f is not None:\n            f.discard()\n        raise\n"),
+]
